@@ -10,7 +10,8 @@ AXIOMS_OK = []
 TRUSTED = ["hand-written small-step Gallina model of experimental/incremental (Model/IncExec.v), tied to the working tree by "
            "checks/C33.py / C34.py; C35_incremental_eq_batch is a corollary of C33_run_returns_fresh_values on that model",
            "harness harness/cmd/increcompile: real incremental.Executor with the real queries.File/AST/IR/Link on generated "
-           ".proto workspaces and edit histories; the reference is a brand-new executor, session and opener on the same files"]
+           ".proto workspaces and edit histories (edits of files and of the set / order of workspace members); the reference is a "
+           "brand-new executor, session and opener on the same files and members"]
 ASSUMPTIONS = ["the theorem's hypothesis (shape of a world): every query's result is a function of the opener's content for the path "
                "it names and of the results of the queries it resolved, and so is the sequence of its Resolve calls; after an edit the "
                "File keys (ReportError=false) of the changed paths are evicted.  The check tests this hypothesis on the real queries",
@@ -146,6 +147,165 @@ class WS:
         return {"set": {}, "del": []}, "none"
 
 
+class XWS:
+    """a workspace whose SET OF MEMBERS is edited and whose files clash across files.
+
+    The opener holds base.proto (an extendable message) and g<i>.proto (proto2).  Packages come from {p, q}, message / enum
+    names from a small pool and extension numbers from a pool of four, so two files that do not import each other often declare
+    the same fully-qualified symbol or the same extension number of p.Base: diagnostics that only the Link task can produce.
+    The members of the workspace are a sub-list of the opener's files (any order); the others are compiled as imports or not
+    at all."""
+    NAMES = ["Dup", "N0", "N1", "N2"]
+    EXTNUMS = [100, 100, 101, 102]
+
+    def __init__(self, rng, nfiles):
+        self.rng = rng
+        self.files = {}
+        self.next = 0
+        for _ in range(nfiles):
+            self.add_file()
+        ids = sorted(self.files)
+        force = rng.below(4)
+        if force in (0, 2) and len(ids) >= 2:
+            # two files that do not import each other declare p.Dup
+            a, b = ids[0], ids[1]
+            for i in (a, b):
+                f = self.files[i]
+                f["pkg"] = "p"
+                if "Dup" not in [m["name"] for m in f["msgs"]] + f["enums"]:
+                    f["msgs"][0]["name"] = "Dup"
+            self.files[b]["imports"] = [j for j in self.files[b]["imports"] if j != a]
+        if force in (1, 2) and len(ids) >= 2:
+            # two files extend p.Base with the same number
+            for i in (ids[-1], ids[-2]):
+                f = self.files[i]
+                f["base"] = True
+                f["exts"] = [100] + [n for n in f["exts"] if n != 100][:1]
+        self.members = [i for i in ids if rng.chance(2, 3)] or [ids[0]]
+        if rng.chance(1, 4):
+            self.members = rng.shuffle(self.members)
+
+    def add_file(self):
+        rng = self.rng
+        i = self.next
+        self.next += 1
+        older = sorted(self.files)
+        f = {"pkg": "p" if rng.chance(3, 4) else "q", "imports": [j for j in older if rng.chance(1, 3)], "base": rng.chance(1, 2),
+             "msgs": [], "enums": [], "exts": [], "comment": 0}
+        names = list(self.NAMES)
+        names = rng.shuffle(names)
+        for _ in range(rng.range(1, 3)):
+            f["msgs"].append({"name": names.pop(), "uses": None})
+        if rng.chance(1, 4):
+            f["enums"].append(names.pop())
+        if f["base"]:
+            exts = []
+            for _ in range(rng.range(1, 3)):
+                n = rng.choice(self.EXTNUMS)
+                if n not in exts:
+                    exts.append(n)
+            f["exts"] = exts
+        if f["imports"] and rng.chance(1, 2):
+            g = self.files[rng.choice(f["imports"])]
+            if g["msgs"]:
+                f["msgs"][0]["uses"] = "%s.%s" % (g["pkg"], rng.choice(g["msgs"])["name"])
+        self.files[i] = f
+        return i
+
+    BASE = "syntax = \"proto2\";\npackage p;\nmessage Base { extensions 100 to 199; }\n"
+
+    def render(self, i):
+        f = self.files[i]
+        out = ["syntax = \"proto2\";", "package %s;" % f["pkg"]]
+        for j in f["imports"]:
+            out.append("import \"g%d.proto\";" % j)
+        if f["base"]:
+            out.append("import \"base.proto\";")
+        for k in range(f["comment"]):
+            out.append("// edit %d" % k)
+        for e in f["enums"]:
+            out.append("enum %s { %s_G%d_ZERO = 0; }" % (e, e.upper(), i))
+        for m in f["msgs"]:
+            out.append("message %s { optional int32 x = 1;%s }" % (m["name"], (" optional .%s y = 2;" % m["uses"]) if m["uses"] else ""))
+        if f["base"] and f["exts"]:
+            out.append("extend p.Base { %s }" % " ".join("optional int32 e%d_%d = %d;" % (i, k, n) for k, n in enumerate(f["exts"])))
+        return "\n".join(out) + "\n"
+
+    def snapshot(self):
+        out = {"g%d.proto" % i: self.render(i) for i in self.files}
+        out["base.proto"] = self.BASE
+        return out
+
+    def member_paths(self):
+        return ["g%d.proto" % i for i in self.members]
+
+    def edit(self):
+        """one random step; returns the harness edit {set, del, ws, relink} and its class"""
+        rng = self.rng
+        before, mbefore = self.snapshot(), list(self.members)
+        kinds = ["ws-remove", "ws-remove", "ws-add", "ws-add", "ws-reorder", "relink", "x-delfile", "x-delfile", "x-addfile", "x-comment",
+                 "x-rename", "x-extnum", "x-import", "x-pkg"]
+        for _ in range(30):
+            kind = rng.choice(kinds)
+            ids = sorted(self.files)
+            i = rng.choice(ids)
+            f = self.files[i]
+            relink = False
+            if kind == "ws-remove" and len(self.members) > 1:
+                self.members.pop(rng.below(len(self.members)))
+            elif kind == "ws-add":
+                out = [j for j in ids if j not in self.members]
+                if out:
+                    self.members.insert(rng.below(len(self.members) + 1), rng.choice(out))
+            elif kind == "ws-reorder" and len(self.members) > 1:
+                self.members = rng.shuffle(self.members)
+            elif kind == "relink":
+                relink = True
+            elif kind == "x-delfile" and len(ids) > 2:
+                del self.files[i]
+                if i in self.members and (len(self.members) > 1) and not rng.chance(1, 8):
+                    self.members.remove(i)            # else: a member that cannot be opened any more
+                for g in self.files.values():
+                    if i in g["imports"] and rng.chance(1, 2):
+                        g["imports"].remove(i)        # else: a dangling import
+            elif kind == "x-addfile" and len(ids) < 6:
+                n = self.add_file()
+                if rng.chance(1, 2):
+                    self.members.append(n)
+            elif kind == "x-comment":
+                f["comment"] += 1
+            elif kind == "x-rename":
+                m = rng.choice(f["msgs"])
+                free = [n for n in self.NAMES if n not in [x["name"] for x in f["msgs"]] + f["enums"]]
+                if free:
+                    m["name"] = rng.choice(free)
+            elif kind == "x-extnum" and f["base"]:
+                n = rng.choice(self.EXTNUMS)
+                if n in f["exts"]:
+                    f["exts"].remove(n)
+                else:
+                    f["exts"].append(n)
+            elif kind == "x-import":
+                lower = [j for j in ids if j < i]
+                if lower:
+                    j = rng.choice(lower)
+                    if j in f["imports"]:
+                        f["imports"].remove(j)
+                    else:
+                        f["imports"].append(j)
+            elif kind == "x-pkg":
+                f["pkg"] = "q" if f["pkg"] == "p" else "p"
+            after = self.snapshot()
+            sets = {p: t for p, t in after.items() if before.get(p) != t}
+            dels = [p for p in before if p not in after]
+            if sets or dels or relink or self.members != mbefore:
+                e = {"set": sets, "del": dels, "ws": self.member_paths()}
+                if relink:
+                    e["relink"] = True
+                return e, kind
+        return {"set": {}, "del": [], "ws": self.member_paths()}, "none"
+
+
 def run(ctx):
     rng = ctx.rng
     cases, kinds = [], []
@@ -161,6 +321,28 @@ def run(ctx):
         {"par": 2, "files": {"a.proto": A},
          "edits": [{"set": {"b.proto": B}}, {"set": {"a.proto": A.replace("B b = 1;", "B b = 1; B c = 1;")}}, {"set": {"a.proto": A}}]},
     ]
+    # corpus for the member-set stratum: two members clash (symbol / extension number) while an unrelated member leaves, a file
+    # compiled only as an import joins, the members are reordered, or nothing but the Workspace value changes
+    P2 = "syntax = \"proto2\";\npackage p;\n"
+    XB = XWS.BASE
+    corpus += [
+        {"par": 2, "files": {"a.proto": P2 + "message Dup { optional int32 x = 1; }\n", "b.proto": P2 + "message Dup { optional string y = 1; }\n",
+                             "c.proto": "syntax = \"proto2\";\npackage q;\nmessage C {}\n"},
+         "workspace": ["a.proto", "b.proto", "c.proto"],
+         "edits": [{"ws": ["a.proto", "b.proto"]}, {"ws": ["b.proto", "a.proto"]}, {"ws": ["b.proto", "a.proto"], "relink": True},
+                   {"del": ["c.proto"], "ws": ["b.proto", "a.proto"]}, {"set": {"c.proto": P2 + "message Dup {}\n"}, "ws": ["b.proto", "a.proto", "c.proto"]}]},
+        {"par": 1, "files": {"a.proto": P2 + "import \"lib.proto\";\nmessage A { optional Dup d = 1; }\n", "b.proto": P2 + "message Dup { optional string y = 1; }\n",
+                             "lib.proto": P2 + "message Dup { optional int32 x = 1; }\n"},
+         "workspace": ["a.proto"],
+         "edits": [{"ws": ["a.proto", "b.proto"]}, {"ws": ["a.proto", "b.proto", "lib.proto"]}, {"ws": ["b.proto", "lib.proto"]}]},
+        {"par": 2, "files": {"base.proto": XB, "x.proto": P2 + "import \"base.proto\";\nextend Base { optional int32 ex = 100; }\n",
+                             "y.proto": P2 + "import \"base.proto\";\nextend Base { optional int32 ey = 100; }\n",
+                             "u.proto": P2 + "import \"x.proto\";\nmessage U {}\n", "v.proto": P2 + "import \"y.proto\";\nmessage V {}\n"},
+         "workspace": ["u.proto"],
+         "edits": [{"ws": ["u.proto", "v.proto"]}, {"ws": ["x.proto", "v.proto"]}, {"ws": ["x.proto", "y.proto"]}, {"ws": ["y.proto", "x.proto", "base.proto"]},
+                   {"set": {"y.proto": P2 + "import \"base.proto\";\nextend Base { optional int32 ey = 101; }\n"}, "ws": ["y.proto", "x.proto", "base.proto"]},
+                   {"ws": ["x.proto", "y.proto"]}]},
+    ]
     cases += corpus
     kinds += [["corpus"]] * len(corpus)
     for _ in range(ctx.budget(90, 3000)):
@@ -173,17 +355,39 @@ def run(ctx):
             ks.append(k)
         cases.append({"par": rng.range(1, 3), "files": files, "edits": edits, "timeout_ms": 30000})
         kinds.append(ks)
+    # member-set stratum (see XWS)
+    for _ in range(ctx.budget(90, 3000)):
+        ws = XWS(rng, rng.range(3, 5))
+        files, members = ws.snapshot(), ws.member_paths()
+        edits, ks = [], []
+        for _e in range(rng.range(3, 6)):
+            e, k = ws.edit()
+            edits.append(e)
+            ks.append(k)
+        cases.append({"par": rng.range(1, 3), "files": files, "workspace": members, "edits": edits, "timeout_ms": 30000})
+        kinds.append(ks)
     ctx.rule = ("generated workspaces of 2..4 proto3 files (packages, acyclic imports, messages with scalar / local / imported message and "
-                "enum fields, enums) x histories of 3..5 edits drawn from {change a field type, add / delete a field, change a field number, "
+                "enum fields, enums) x histories of 3..6 edits drawn from {change a field type, add / delete a field, change a field number, "
                 "rename a message, break / repair an import, drop an import, add / delete a file, rename the package, break / repair the "
                 "syntax, comment-only change}; after every edit the File keys of the changed paths are evicted on the long-lived executor "
                 "and queries.Link is compared with a brand-new executor + session + opener (descriptor bytes per file, multiset of rendered "
-                "diagnostics); distinct = distinct (files, history); non-trivial = at least one edit changes a file that another file imports "
-                "or is imported by")
-    outs = ctx.impl("increcompile", cases)
+                "diagnostics); distinct = distinct (files, members, history); non-trivial = more than one file.  "
+                "Member-set stratum: the opener holds base.proto (extendable message) and 3..5 proto2 files g<i> with packages from {p, q}, "
+                "message / enum names from a pool of four and extension numbers of p.Base from a pool of three, so that files which do "
+                "not import each other declare the same symbol or extension number (half of the workspaces are built with such a clash); "
+                "the workspace members are a sub-list of the opener's files in any order (the rest is compiled only as imports or not at "
+                "all) x histories of 3..6 steps drawn from {remove a member, add a member (possibly one already compiled as an import), "
+                "reorder the members, new Workspace value with the same members, delete a file (member or imported; sometimes it stays a "
+                "member / stays imported), add a file (member or not), comment-only change, rename a message into / out of a clash, add / "
+                "remove an extension number, add / remove an import, change the package}; same comparison after every step; non-trivial "
+                "there = some step links a different Workspace value while the batch compilation reports at least one diagnostic")
+    # 8 harness processes (each case is independent); the default would be one process per 50 cases
+    outs = ctx.impl("increcompile", cases, shards=min(NCPU, 8))
     for c, ks, o in zip(cases, kinds, outs):
         nontriv = len(c["files"]) > 1
-        ctx.count((sorted(c["files"].items()), json.dumps(c["edits"], sort_keys=True)), nontriv, None)
+        if "workspace" in c and "steps" in o:
+            nontriv = any("workspace [" in st.get("label", "") and st.get("ndiags", 0) > 0 for st in o["steps"])
+        ctx.count((sorted(c["files"].items()), c.get("workspace"), json.dumps(c["edits"], sort_keys=True)), nontriv, None)
         for k in ks:
             ctx.hist[k] = ctx.hist.get(k, 0) + 1
         if "crash" in o or "panic" in o or "steps" not in o:
@@ -205,4 +409,6 @@ def run(ctx):
                               {"input": c, "edit_kinds": ks, "step": si, "observed": st})
                 break
     ctx.sample({"files": corpus[0]["files"], "edits": corpus[0]["edits"][:2]})
-    ctx.sample({"files": cases[-1]["files"], "edit_kinds": kinds[-1]})
+    nold = len(corpus) + ctx.budget(90, 3000)
+    ctx.sample({"files": cases[nold - 1]["files"], "edit_kinds": kinds[nold - 1]})
+    ctx.sample({"files": cases[-1]["files"], "workspace": cases[-1]["workspace"], "edits": cases[-1]["edits"], "edit_kinds": kinds[-1]})
